@@ -56,14 +56,14 @@ def generate(seed, tier):
             # filter, keys, values, items, enumerate, split, list): the temporary changes, the host's objects do not -
             # also when they hold 0 or 1 elements
             f = ro.choice(['sorted', 'reversed', 'shuffle', 'filter', 'map', 'keys', 'values', 'items', 'enumerate'])
-            arg = ro.choice(['ONE', 'E', 'L', 'D1', 'ED', 'D', 'MIX', 'MIX'])
-            if f in ('keys', 'values', 'items') and arg in ('ONE', 'E', 'L'):
-                arg = ro.choice(['D1', 'ED', 'D'])
-            if f in ('reversed', 'shuffle', 'filter', 'enumerate') and arg in ('D1', 'ED', 'D'):
+            arg = ro.choice(['ONE', 'E', 'L', 'D1', 'ED', 'D', 'MIX', 'MIX', 'D100', 'L300'])
+            if f in ('keys', 'values', 'items') and arg in ('ONE', 'E', 'L', 'MIX', 'L300'):
+                arg = ro.choice(['D1', 'ED', 'D', 'D100'])
+            if f in ('reversed', 'shuffle', 'filter', 'enumerate') and arg in ('D1', 'ED', 'D', 'D100'):
                 arg = ro.choice(['ONE', 'E', 'L', 'MIX'])
-            inner = {'filter': 'filter(%s, v => True)', 'map': 'map(%s, v => v)' if arg in ('ONE', 'E', 'L', 'MIX') else 'map(%s, (k, v) => v)'}.get(f, f + '(%s)') % arg
+            inner = {'filter': 'filter(%s, v => True)', 'map': 'map(%s, v => v)' if arg in ('ONE', 'E', 'L', 'MIX', 'L300') else 'map(%s, (k, v) => v)'}.get(f, f + '(%s)') % arg
             mut = ro.choice(['push(%s, 1)', '%s | push(2)', 'insert(%s, 0, 9)', 'pop(%s)', '%s | remove(7)', '(%s)[0] = 5', 'del (%s)[0]'])
-            if f == 'sorted' and arg in ('D1', 'ED', 'D'):
+            if f == 'sorted' and arg in ('D1', 'ED', 'D', 'D100'):
                 mut = ro.choice(['remove(%s, "k")', '(%s)["n"] = 1', 'del (%s)["k"]'])
             ops.append({'op': 'src', 'fresh_temp': True, 'entropy': 1, 'src': mut % inner})
             continue
